@@ -29,6 +29,8 @@ type recMonitor struct {
 	base   *frugal.BaseFTransportMonitor
 	mu     sync.Mutex
 	events []monEvent
+	// reopenedDelay makes OnReopenSucceeded slow (an application doing work in its callback)
+	reopenedDelay time.Duration
 }
 
 func (m *recMonitor) add(e monEvent) {
@@ -51,6 +53,9 @@ func (m *recMonitor) OnReopenFailed(prev uint, prevWait time.Duration) (bool, ti
 func (m *recMonitor) OnReopenSucceeded() {
 	m.base.OnReopenSucceeded()
 	m.add(monEvent{Kind: "reopenSucceeded"})
+	if m.reopenedDelay > 0 {
+		time.Sleep(m.reopenedDelay)
+	}
 }
 
 func (m *recMonitor) snapshot() []monEvent {
@@ -84,11 +89,16 @@ type c15Step struct {
 }
 
 type c15Case struct {
-	Monitor     bool      `json:"monitor"`
-	MaxAttempts uint      `json:"max_attempts"`
-	InitialMs   int       `json:"initial_ms"`
-	MaxMs       int       `json:"max_ms"`
-	Steps       []c15Step `json:"steps"`
+	Monitor     bool `json:"monitor"`
+	MaxAttempts uint `json:"max_attempts"`
+	InitialMs   int  `json:"initial_ms"`
+	MaxMs       int  `json:"max_ms"`
+	// StaleEOF: a Read that was blocked when its session was closed locally returns EOF, and
+	// only once the transport has been opened again (or 30 ms later)
+	StaleEOF bool `json:"stale_eof,omitempty"`
+	// ReopenedDelayMs: the monitor's OnReopenSucceeded callback takes that long
+	ReopenedDelayMs int       `json:"reopened_delay_ms,omitempty"`
+	Steps           []c15Step `json:"steps"`
 }
 
 type c15Session struct {
@@ -232,10 +242,12 @@ func execC15(c c15Case) *ev.Failure {
 
 func execC15Inner(c c15Case) *ev.Failure {
 	s := &c15Session{c: c, st: newScriptT()}
+	s.st.staleEOF = c.StaleEOF
 	s.tr = frugal.NewAdapterTransport(s.st)
 	if c.Monitor {
 		s.mon = &recMonitor{base: &frugal.BaseFTransportMonitor{MaxReopenAttempts: c.MaxAttempts,
-			InitialWait: time.Duration(c.InitialMs) * time.Millisecond, MaxWait: time.Duration(c.MaxMs) * time.Millisecond}}
+			InitialWait: time.Duration(c.InitialMs) * time.Millisecond, MaxWait: time.Duration(c.MaxMs) * time.Millisecond},
+			reopenedDelay: time.Duration(c.ReopenedDelayMs) * time.Millisecond}
 		s.tr.SetMonitor(s.mon)
 		s.monitorActive = true
 	}
@@ -481,6 +493,10 @@ func genC15(t *rapid.T) c15Case {
 	c.MaxAttempts = uint(rapid.IntRange(0, 4).Draw(t, "max"))
 	c.InitialMs = rapid.IntRange(1, 3).Draw(t, "initial")
 	c.MaxMs = rapid.IntRange(c.InitialMs, 6).Draw(t, "maxwait")
+	c.StaleEOF = rapid.IntRange(0, 2).Draw(t, "staleeof") == 0
+	if c.Monitor && rapid.IntRange(0, 2).Draw(t, "slowcallback") == 0 {
+		c.ReopenedDelayMs = rapid.IntRange(5, 30).Draw(t, "callbackms")
+	}
 	c.Steps = append(c.Steps, c15Step{Op: "open"})
 	n := rapid.IntRange(1, 22).Draw(t, "n")
 	for i := 0; i < n; i++ {
@@ -506,6 +522,12 @@ func classifyC15(c c15Case) ev.Class {
 	labels := []string{fmt.Sprintf("max=%d", c.MaxAttempts)}
 	if c.Monitor {
 		labels = append(labels, "monitor")
+	}
+	if c.StaleEOF {
+		labels = append(labels, "stale-eof-after-local-close")
+	}
+	if c.ReopenedDelayMs > 0 {
+		labels = append(labels, "slow-reopen-callback")
 	}
 	afterFail := false
 	for _, st := range c.Steps {
